@@ -71,4 +71,11 @@ TEXT['C20'] = dict(
           'totality of matplotlib, figure closing and file set are explored by a bounded run only.'),
     design_ref='DESIGN.md section 4 (C20)', note='Trusted: A-FRAME, matplotlib style-context contract; bounded part never counted as proved.',
     technique=_FT + ' + bounded run over scenes x plot options')
+TEXT['C07'] = dict(
+    text=('Unbounded proof of the per-row effect of the MSA cropping and of the high-cloud flag by symbolic execution of the real '
+          '_cleanup_pdf over frames with a symbolic number of rows and arbitrary index labels; the two relational clauses are lemmas over '
+          'that postcondition; a bounded native run of both relations accompanies it.'),
+    design_ref='DESIGN.md section 4 (C07)',
+    note='Trusted: pyvc row dialect (assumed pandas contracts for masks, .index, .loc[labels]=, drop, reset_index), z3, A-FRAME for the dependency of the tables on (_data, _prms).',
+    technique='contract-based deductive verification: per-row postcondition in a row dialect + relational lemmas, z3')
 NA = {}
